@@ -558,6 +558,12 @@ def search(ctx):
                               'save_minor': rng.choice([None, 2, 3, 4, 5]) if cube else None})
                     check_file(ctx, V, C, s, deep=(lw + lh) % 2 == 0)
                     ctx.count('search:file')
+    # witnesses of repaired defects must stay repaired
+    import common
+    for k in common.load_known(PID):
+        if k.get('status') == 'fixed' and k.get('witness'):
+            replay(ctx, {'input': k['witness']}, quiet=True)
+            ctx.count('search:fixed-witness-replayed')
     # neighbours of anything the model disagreed on
     for d in ctx.disagreements[:10]:
         sp = d['case'].get('spec')
@@ -591,7 +597,7 @@ def search(ctx):
         wt['what'] += f' [shrunk to {spec["w"]}x{spec["h"]} {spec["fmt"]} 7.{spec["minor"]}->{spec["save_minor"]} frames={spec["frames"]} depth={spec["depth"]} flags={spec["flags"]:#x}]'
 
 
-def replay(ctx, payload):
+def replay(ctx, payload, quiet=False):
     V, C = U.mods()
     inp = payload.get('input') or {}
     kind = inp.get('kind')
@@ -609,7 +615,8 @@ def replay(ctx, payload):
               payload.get('disagreements', [])[:1])
         return False
     for w in ctx.witnesses[n0:]:
-        print('  ', w['key'], '-', w['what'])
+        if not quiet:
+            print('  ', w['key'], '-', w['what'])
     return len(ctx.witnesses) == n0
 
 
